@@ -20,7 +20,7 @@ VERIF = os.path.dirname(os.path.dirname(os.path.abspath(__file__)))
 HARNESS = os.path.join(VERIF, "harness", "h_pybody.py")
 TOOL_TIMEOUT = 30
 CLASSES = ("body-compile:keyword-attribute-in-expression", "body-compile:keyword-rule-label", "body-compile:string-literal-quote-or-backslash",
-           "body-compile:binary-literal", "body-value:xor-right-nested", "body-value:integer-division", "body-value:real-literal-digits")
+           "body-compile:binary-literal", "body-value:xor-right-nested", "body-value:integer-division", "body-value:real-literal-digits", "body-value:builtin-constant")
 
 
 def show(v):
@@ -100,6 +100,9 @@ def expected_value(kind, tree, env, spec_val):
         return "STR:" + tree[1]
     if k == "real":
         return "REAL:" + repr(float(tree[1]))
+    if k == "const":
+        import math
+        return {"PI": "REAL:" + repr(math.pi), "CONST_E": "REAL:" + repr(math.e), "UNKNOWN": "unknown", "?": "none"}[tree[1]]
     try:
         v = X.evaluate(tree, env)
     except ArithmeticError:
@@ -210,6 +213,8 @@ def classify(o, body):
             return CLASSES[5]
         if any(x[0] == "real" for x in walk(t)):
             return CLASSES[6]
+        if any(x[0] == "const" for x in walk(t)):
+            return CLASSES[7]
     return kind + ":" + body.express()
 
 
